@@ -284,8 +284,8 @@ func wsKeep(m *openfgav1.AuthorizationModel) *openfgav1.AuthorizationModel {
 
 // ---- workload ----
 
-var c02Names = []string{"user", "group", "doc", "viewer", "editor", "model", "type", "a.b", "a/b", "x-y", "relation", "schema", "m", "extend", "module", "_x", "b1", "a.b/c"}
-var c02Idents = []string{"c1", "is_valid", "x-cond", "_c", "cond2", "non_expired", "C"}
+var c02Names = []string{"Viewer", "VIEWER", "Doc", "M", "user", "group", "doc", "viewer", "editor", "model", "type", "a.b", "a/b", "x-y", "relation", "schema", "m", "extend", "module", "_x", "b1", "a.b/c"}
+var c02Idents = []string{"c1", "C1", "is_valid", "Is_Valid", "x-cond", "_c", "cond2", "non_expired", "C", "c"}
 var c02ParamTypes = []openfgav1.ConditionParamTypeRef_TypeName{
 	openfgav1.ConditionParamTypeRef_TYPE_NAME_BOOL, openfgav1.ConditionParamTypeRef_TYPE_NAME_STRING, openfgav1.ConditionParamTypeRef_TYPE_NAME_INT,
 	openfgav1.ConditionParamTypeRef_TYPE_NAME_UINT, openfgav1.ConditionParamTypeRef_TYPE_NAME_DOUBLE, openfgav1.ConditionParamTypeRef_TYPE_NAME_DURATION,
@@ -368,7 +368,7 @@ func c02Model(r *rand.Rand) *openfgav1.AuthorizationModel {
 				p = &openfgav1.ConditionParamTypeRef{TypeName: []openfgav1.ConditionParamTypeRef_TypeName{openfgav1.ConditionParamTypeRef_TYPE_NAME_LIST, openfgav1.ConditionParamTypeRef_TYPE_NAME_MAP}[r.Intn(2)],
 					GenericTypes: []*openfgav1.ConditionParamTypeRef{p}}
 			}
-			cd.Parameters[[]string{"x", "y", "param_1", "p-q", "model", "type", "l"}[r.Intn(7)]] = p
+			cd.Parameters[[]string{"x", "X", "y", "param_1", "p-q", "model", "type", "l", "L"}[r.Intn(9)]] = p
 		}
 		if modular && r.Intn(2) == 0 {
 			cd.Metadata = &openfgav1.ConditionMetadata{Module: "mod" + fmt.Sprint(r.Intn(2)), SourceInfo: &openfgav1.SourceInfo{File: "f.fga"}}
